@@ -9,7 +9,7 @@ Local Open Scope string_scope.
 Definition guard_facts : list nat :=
   [decode_var_len_check; decode_glob_nil_check; decode_platform_nil_check; decode_requires_nil_check;
    decode_snippet_clamp; decode_git_len_check; decode_wildcard_quotemeta; decode_wildcard_mustcompile;
-   decode_traverse_struct_check; decode_omap_nil_check; decode_deepcopy_nil_check].
+   decode_traverse_struct_check; decode_omap_nil_check; decode_deepcopy_nil_check; decode_expand_literal_len_check].
 
 (* every fact has a shape the extractor recognised (0 or 1) *)
 Definition facts_recognised : bool := forallb (fun x => Nat.ltb x 2) guard_facts.
@@ -27,6 +27,7 @@ Definition current : variant :=
      g_wc_must := negb (Nat.eqb decode_wildcard_mustcompile 0);
      g_traverse_struct := on decode_traverse_struct_check;
      g_omap_nil := on decode_omap_nil_check;
+     g_expand_literal_len := on decode_expand_literal_len_check;
      g_deepcopy_nil := on decode_deepcopy_nil_check |}.
 
 (* the exit codes the project documents (errors/errors.go) *)
@@ -52,6 +53,8 @@ Record tcase := {
   tc_wc_bad : list string;         (* names whose raw wildcard pattern does not compile *)
   tc_wc_qbad : list string;        (* names whose quoted wildcard pattern does not compile *)
   tc_giturl : list (string * (string * string));   (* giturls.Parse: location -> (scheme, path) *)
+  tc_words0 : list string;         (* strings that parse to no shell word at all *)
+  tc_words_err : list string;      (* strings the shell parser rejects *)
   tc_obs : outcome;                (* what Setup + compile + list + dry run did *)
   tc_decode : outcome              (* what yaml.Unmarshal (+ the version check) did *)
 }.
@@ -63,7 +66,8 @@ Definition oracles_of (c : tcase) : oracles :=
      o_arch := fun s => mem s (tc_arch c);
      o_wc_raw := fun s => negb (mem s (tc_wc_bad c));
      o_wc_quoted := fun s => negb (mem s (tc_wc_qbad c));
-     o_giturl := fun s => lookup s (tc_giturl c) |}.
+     o_giturl := fun s => lookup s (tc_giturl c);
+     o_words := fun s => if mem s (tc_words_err c) then None else if mem s (tc_words0 c) then Some 0 else Some 1 |}.
 
 Definition outcome_of_res {A} (r : res A) : outcome :=
   match r with Ok _ => OOk | Err c => OErr c | Panic s => OPanic s end.
@@ -90,7 +94,8 @@ Record lcase := { lc_loc : string; lc_giturl : option (string * string); lc_obs 
 Definition loc_agree (v : variant) (c : lcase) : bool :=
   let o := {| o_dur := fun _ => false; o_ver := fun _ => false; o_os := fun _ => false; o_arch := fun _ => false;
               o_wc_raw := fun _ => true; o_wc_quoted := fun _ => true;
-              o_giturl := fun s => if String.eqb s (lc_loc c) then lc_giturl c else None |} in
+              o_giturl := fun s => if String.eqb s (lc_loc c) then lc_giturl c else None;
+              o_words := fun _ => Some 1 |} in
   if is_remote_looking (lc_loc c) then
     match new_node v o (lc_loc c), lc_obs c with
     | NNPanic s, OPanic s' => site_eqb s s'
@@ -103,7 +108,7 @@ Record wcase := { wc_name : string; wc_raw_ok : bool; wc_quoted_ok : bool; wc_pa
 Definition wild_agree (v : variant) (c : wcase) : bool :=
   let o := {| o_dur := fun _ => false; o_ver := fun _ => false; o_os := fun _ => false; o_arch := fun _ => false;
               o_wc_raw := fun _ => wc_raw_ok c; o_wc_quoted := fun _ => wc_quoted_ok c;
-              o_giturl := fun _ => None |} in
+              o_giturl := fun _ => None; o_words := fun _ => Some 1 |} in
   Bool.eqb (is_panic (wildcard_compile v o (wc_name c))) (wc_panicked c).
 
 Fixpoint number {A} (i : nat) (l : list A) : list (nat * A) :=
